@@ -263,3 +263,61 @@ def c13_once(r, seed, tier, model_ok):
         mc = [dict(text=f(k)) for f in fams.values() for k in (3, 10, 14)]
         a = impl_run(mc); b = model_run(mc); dist, bad3 = compare(mc, a, b)
         r.slice("sharing_families_vs_model", len(mc), len(mc), [mc[0]["text"]], dict(outcomes=dict(dist)), "the same families, full event trace vs the model", bad3)
+
+# ------------------------------------------------------------------ C19: implementation-side Dyck checker + transparency
+def _dyck_one(case):
+    """run with a passive observer that checks the event discipline itself, and once more WITHOUT observer to compare every observation"""
+    import sys, io, signal
+    parse, interpret, AS, M = vlib.mods()
+    class Rec(interpret.DebuggerBase):
+        def __init__(s): s.stack = []; s.err = None; s.n = 0
+        def before_eval(s, d, e):
+            s.n += 1
+            if s.err is None and d != len(s.stack) + 1: s.err = f"'about to evaluate' #{s.n} at depth {d} with {len(s.stack)} evaluations pending"
+            s.stack.append((d, e))
+        def after_eval(s, d, e, r):
+            s.n += 1
+            if s.err is not None: return
+            if not s.stack: s.err = f"'finished' event #{s.n} with nothing pending"; return
+            d0, e0 = s.stack.pop()
+            if e0 is not e or d0 != d: s.err = f"'finished' event #{s.n} (depth {d}) does not match the innermost pending evaluation (depth {d0})"
+            if r is None or isinstance(r, AS.Expr): s.err = f"'finished' event #{s.n} carries no strict value / exception"
+    def once(rec):
+        src = "".join(l + "\n" for l in case.get("stdin", []))
+        old = sys.stdin, sys.stdout; sys.stdin = io.StringIO(src); sys.stdout = out = io.StringIO()
+        signal.signal(signal.SIGALRM, vlib._alarm); signal.setitimer(signal.ITIMER_REAL, case.get("tlimit", 20.0))
+        try:
+            try:
+                asts = parse.parse("<t>", case["text"])
+                res = "V " + interpret.evaluate(M.formatter(AS.Expr(asts[0], AS.Env([], [])), False), debugger=rec)
+            except AS.UnsuspectedHangeulError as e: res = "E " + ",".join(str(v.value) if isinstance(v, AS.Integer) else "?" for v in e.err.value) + " @" + ";".join(f"{m.line_no}:{m.start_col}:{m.end_col}" for m in e.err.metadatas)
+            except vlib._TO: res = "TIMEOUT"
+            except RuntimeError as e: res = "LIMIT" if "Maximum Stack Size" in str(e) else vlib.host_site(e)
+            except BaseException as e: res = vlib.host_site(e)
+        finally:
+            signal.setitimer(signal.ITIMER_REAL, 0); rest = sys.stdin.read(); sys.stdin, sys.stdout = old
+        return res, out.getvalue(), rest
+    rec = Rec(); with_obs = once(rec); without = once(None)
+    problem = rec.err
+    if problem is None and with_obs[0][0] in "VE" and rec.stack: problem = f"{len(rec.stack)} 'about to evaluate' event(s) never got a matching 'finished' event; depth ends at {len(rec.stack)} instead of 0"
+    if problem is None and "TIMEOUT" not in (with_obs[0], without[0]) and with_obs != without: problem = f"observation differs with the observer attached: {with_obs[0][:60]!r} / {without[0][:60]!r}"
+    return problem, rec.n, with_obs[0].split()[0]
+
+def c19_dyck(r, seed, tier, model_ok):
+    """implementation-side oracle: a passive observer checks on the fly that depths rise by one per pending evaluation, that every 'finished'
+    event closes the innermost pending evaluation of the same expression, that nothing stays pending at a normal end or a language error,
+    and that result, exception (with spans), stdout and unread stdin are identical without the observer - on generated pure / throwing / I/O
+    programs and on long tail loops (up to 10^4 iterations, > 5000 tail replacements inside one frame)"""
+    import slices_faults
+    R = random.Random(seed * 7919 + 0xC19)
+    cases, _ = gen_programs(R, N(tier, 2500, 40000))
+    for _ in range(N(tier, 800, 15000)):
+        t, leaves, su = io_text_closed(R, R.randrange(1, 5)); cases.append(dict(text=t, stdin=[R.choice(["a", "", "bc"]) for _ in range(R.randrange(0, 4))]))
+    for n in (50, 3000, 10000):
+        for name, (t, w) in slices_faults.loops(n).items(): cases.append(dict(text=t, tlimit=120, family=f"{name} N={n}"))
+    cases.append(dict(text=slices_faults.nontail(3000), tlimit=60)); cases.append(dict(text=slices_faults.nontail(6000), tlimit=60))
+    out = vlib.pmap(_dyck_one, cases, chunksize=20)
+    bad = [dict(program=(c.get("family", "") + " " + c["text"])[:400], stdin=c.get("stdin", []), impl=o[0], model="well-nested events, depth back to zero, same observations as without observer", which=["events"]) for c, o in zip(cases, out) if o[0]]
+    r.slice("observer_discipline", len(cases), len({c["text"] for c in cases if nontrivial(c["text"])}), [cases[0]["text"], cases[-3]["text"][:120]],
+            dict(outcomes=dict(collections.Counter(o[2] for o in out)), events_checked=sum(o[1] for o in out)),
+            "generated programs + I/O trees + tail-loop families up to 10^4 iterations, each run with a checking observer and again without", bad[:40])
